@@ -108,7 +108,7 @@ func TestSyncer(t *testing.T) {
 				h   *vh.Header
 			}
 			var asyncGossip []chan asyncRes
-			var asyncHead chan asyncRes
+			var asyncHead []chan asyncRes // concurrent Head() callers: the first one performs the request, the others wait for its result
 			serveCh := make(chan serveOutcome)
 			type pendingReq struct{ from, to int }
 			var cur *pendingReq
@@ -209,21 +209,24 @@ func TestSyncer(t *testing.T) {
 						}
 						asyncGossip = nil
 					case "headStart":
-						asyncHead = make(chan asyncRes, 1)
+						ch := make(chan asyncRes, 1)
+						asyncHead = append(asyncHead, ch)
 						go func(ch chan asyncRes) {
 							ctx, cancel := context.WithTimeout(bg, time.Hour)
 							defer cancel()
 							h, err := n.sy.Head(ctx)
 							ch <- asyncRes{err: err, h: h}
-						}(asyncHead)
+						}(ch)
 					case "headRelease":
 						headCh <- ev.Kind
 						wait()
-						if asyncHead != nil {
+						for _, ch := range asyncHead {
 							select {
-							case r := <-asyncHead:
+							case r := <-ch:
 								if r.h != nil {
-									ev.HeadRet = int(r.h.Height())
+									if int(r.h.Height()) > ev.HeadRet {
+										ev.HeadRet = int(r.h.Height())
+									}
 									if !chain.IsCanon(r.h) {
 										ev.BadTarget = true
 									}
@@ -231,6 +234,7 @@ func TestSyncer(t *testing.T) {
 							default:
 							}
 						}
+						asyncHead = nil
 					case "serve":
 						n.get.mu.Lock()
 						out := cur != nil
